@@ -24,7 +24,7 @@ func init() {
 
 func scenarioC07(r *Run) {
 	t := r.T
-	so := SpecOpts{MaxExtra: 6, MaxSigner: 4, BigOK: r.Thorough() && t.Bool(1, 10, "c07.big")}
+	so := SpecOpts{MaxExtra: 6, MaxSigner: 4, BigOK: bigOK(r, "c07.big")}
 	if t.Bool(1, 5, "c07.manylabels") {
 		so.MaxExtra = 40
 	}
